@@ -103,7 +103,11 @@ class FreshRef(object):
         for k, v in list(vars(self.F0).items()):
             if k == "specs":
                 F.specs = _copy_tree(v)
-            elif isinstance(v, (dict, list, set, bytearray)):
+            elif isinstance(v, (dict, list, tuple)):
+                # containers are copied structurally (spec trees kept per fetch endianness, module lists ...):
+                # the leaves (ispec objects, modules) are shared, never re-created
+                setattr(F, k, _copy_tree(v))
+            elif isinstance(v, (set, bytearray)):
                 try:
                     setattr(F, k, copy.deepcopy(v))
                 except BaseException:
